@@ -81,8 +81,23 @@ mutual
     | .cons x s r => partOf top s0 ++ (x.parts ++ XRest.parts top s r)
 end
 
-/-- a text segment the format leaves alone: no bracket, no backslash -/
-def plainSeg (s : Str) : Bool := s.all fun c => c != '[' && c != ']' && c != '\\'
+/-- a text segment without bracket and backslash -/
+def bareSeg (s : Str) : Bool := s.all fun c => c != '[' && c != ']' && c != '\\'
+
+/-- the scan behind `plainSeg`; `bs`: the previous character is a backslash that still has to
+    escape a bracket -/
+def segGo : Bool → Str → Bool
+  | bs, [] => !bs
+  | false, c :: cs => if c = '\\' then segGo true cs else c != '[' && c != ']' && segGo false cs
+  | true, c :: cs =>
+      if c = '[' then (readDigits cs none 1).isNone && segGo false cs
+      else if c = ']' then segGo false cs
+      else false
+
+/-- a text segment `parse_msg` leaves alone: every bracket is escaped (`\[`, `\]`), every
+    backslash escapes a bracket, and no escaped opening bracket is followed by digits and a
+    colon (`\[12:` is taken for a placeholder all the same: finding C19-placeholder-text) -/
+def plainSeg (s : Str) : Bool := segGo false s
 
 mutual
   def XNode.plain : XNode → Bool
@@ -112,27 +127,116 @@ theorem readOpen_plain (c : Char) (cs : Str) (h : c ≠ '[') : readOpen (c :: cs
   · rename_i heq; simp at heq; exact absurd heq.1 h
   · rfl
 
+/-- what follows a segment in a message string: nothing, or a bracket of the structure -/
+def Structural (rest : Str) : Prop := rest = [] ∨ ∃ cs, rest = '[' :: cs ∨ rest = ']' :: cs
+
+theorem structural_nil : Structural [] := Or.inl rfl
+theorem structural_open (cs : Str) : Structural ('[' :: cs) := Or.inr ⟨cs, Or.inl rfl⟩
+theorem structural_close (cs : Str) : Structural (']' :: cs) := Or.inr ⟨cs, Or.inr rfl⟩
+
+theorem digitVal_lbracket : digitVal '[' = none := by decide
+theorem digitVal_rbracket : digitVal ']' = none := by decide
+
+/-- digits that lead to no colon inside the segment lead to none in the message either -/
+theorem readDigits_structural : ∀ (cs : Str) (acc : Option Nat) (k : Nat) (rest : Str), Structural rest →
+    readDigits cs acc k = none → readDigits (cs ++ rest) acc k = none
+  | [], acc, k, rest, hr, _ => by
+      rcases hr with rfl | ⟨cs, rfl | rfl⟩
+      · simp [readDigits]
+      · simp [readDigits, digitVal_lbracket]
+      · simp [readDigits, digitVal_rbracket]
+  | c :: cs, acc, k, rest, hr, h => by
+      simp only [readDigits, List.cons_append] at h ⊢
+      cases hd : digitVal c with
+      | some d =>
+        simp only [hd] at h ⊢
+        exact readDigits_structural cs _ _ rest hr h
+      | none =>
+        simp only [hd] at h ⊢
+        exact h
+
 /-- scanning a plain segment only accumulates it -/
-theorem parseGo_plain (top : Nat) (st : List Nat) (acc : List (Nat × Str)) :
-    ∀ (s cur rest : Str), plainSeg s = true →
-      parseGo 0 (top :: st) cur false acc (s ++ rest) = parseGo 0 (top :: st) (s.reverse ++ cur) false acc rest := by
+theorem parseGo_seg (top : Nat) (st : List Nat) (acc : List (Nat × Str)) :
+    ∀ (s cur rest : Str) (bs : Bool), segGo bs s = true → Structural rest →
+      parseGo 0 (top :: st) cur bs acc (s ++ rest) = parseGo 0 (top :: st) (s.reverse ++ cur) false acc rest := by
   intro s
   induction s with
-  | nil => intro cur rest _; simp
+  | nil =>
+    intro cur rest bs h _
+    cases bs with
+    | false => simp
+    | true => simp [segGo] at h
   | cons c cs ih =>
-    intro cur rest h
-    simp only [plainSeg, List.all_cons, Bool.and_eq_true, bne_iff_ne, ne_eq] at h
-    obtain ⟨⟨⟨h1, h2⟩, h3⟩, h4⟩ := h
+    intro cur rest bs h hr
     simp only [List.cons_append]
-    rw [parseGo.eq_def]
-    simp only [readOpen_plain c _ h1]
-    have : (c == ']' && !false) = false := by simp [h2]
-    simp only [Bool.not_false, Bool.and_true, beq_iff_eq, h2, Bool.false_eq_true, ↓reduceIte]
-    have hb : decide (c = '\\') = false := by simp [h3]
-    rw [hb]
-    have := ih (c :: cur) rest (by simpa [plainSeg] using h4)
-    simpa using this
+    cases bs with
+    | false =>
+      simp only [segGo] at h
+      by_cases hb : c = '\\'
+      · subst hb
+        simp only [↓reduceIte] at h
+        rw [parseGo.eq_def]
+        simp only [readOpen_plain '\\' _ (by decide)]
+        have : (('\\' : Char) == ']' && !false) = false := by decide
+        simp only [this, Bool.false_eq_true, ↓reduceIte, decide_true]
+        have := ih ('\\' :: cur) rest true h hr
+        simpa using this
+      · simp only [hb, ↓reduceIte, Bool.and_eq_true, bne_iff_ne, ne_eq] at h
+        obtain ⟨⟨h1, h2⟩, h4⟩ := h
+        rw [parseGo.eq_def]
+        simp only [readOpen_plain c _ h1]
+        simp only [Bool.not_false, Bool.and_true, beq_iff_eq, h2, Bool.false_eq_true, ↓reduceIte]
+        have hb' : decide (c = '\\') = false := by simp [hb]
+        rw [hb']
+        have := ih (c :: cur) rest false h4 hr
+        simpa using this
+    | true =>
+      simp only [segGo] at h
+      by_cases h1 : c = '['
+      · subst h1
+        simp only [↓reduceIte, Bool.and_eq_true, Option.isNone_iff_eq_none] at h
+        rw [parseGo.eq_def]
+        have hro : readOpen ('[' :: (cs ++ rest)) = none := by
+          simp only [readOpen]
+          exact readDigits_structural cs none 1 rest hr h.1
+        simp only [hro]
+        have : (decide (('[' : Char) = ']') && !true) = false := by decide
+        simp only [this, Bool.false_eq_true, ↓reduceIte]
+        have hd : decide (('[' : Char) = '\\') = false := by decide
+        rw [hd]
+        have := ih ('[' :: cur) rest false h.2 hr
+        simpa using this
+      · by_cases h2 : c = ']'
+        · subst h2
+          simp only [h1, ↓reduceIte] at h
+          rw [parseGo.eq_def]
+          simp only [readOpen_plain ']' _ (by decide)]
+          simp only [decide_true, Bool.not_true, Bool.and_false, Bool.false_eq_true, ↓reduceIte]
+          have hd : decide ((']' : Char) = '\\') = false := by decide
+          rw [hd]
+          have := ih (']' :: cur) rest false h hr
+          simpa using this
+        · simp [h1, h2] at h
 
+theorem parseGo_plain (top : Nat) (st : List Nat) (acc : List (Nat × Str)) (s cur rest : Str)
+    (h : plainSeg s = true) (hr : Structural rest) :
+    parseGo 0 (top :: st) cur false acc (s ++ rest) = parseGo 0 (top :: st) (s.reverse ++ cur) false acc rest :=
+  parseGo_seg top st acc s cur rest false h hr
+
+/-- a segment without bracket and backslash is plain -/
+theorem plainSeg_of_bare : ∀ (s : Str), bareSeg s = true → plainSeg s = true
+  | [], _ => rfl
+  | c :: cs, h => by
+      simp only [bareSeg, List.all_cons, Bool.and_eq_true, bne_iff_ne, ne_eq] at h
+      obtain ⟨⟨⟨h1, h2⟩, h3⟩, h4⟩ := h
+      have ih := plainSeg_of_bare cs (by simpa [bareSeg] using h4)
+      simp only [plainSeg] at ih ⊢
+      simp [segGo, h3, h1, h2, ih]
+
+
+theorem structural_node (x : XNode) (tail : Str) : Structural (x.fmt ++ tail) := by
+  cases x with
+  | ph n s0 r => simp only [XNode.fmt, List.cons_append]; exact structural_open _
 
 theorem parseGo_close (n top : Nat) (st : List Nat) (cur : Str) (acc : List (Nat × Str)) (tail : Str) :
     parseGo 0 (n :: top :: st) cur false acc (']' :: tail) =
@@ -165,12 +269,12 @@ mutual
         parseGo 0 (top :: st) [] false (acc ++ XRest.parts n s0 r) tail
     | .nil, n, top, st, s0, acc, tail, h0, _ => by
         simp only [XRest.fmt, List.nil_append, XRest.parts]
-        rw [parseGo_plain n (top :: st) acc s0 [] _ h0, parseGo_close]
+        rw [parseGo_plain n (top :: st) acc s0 [] _ h0 (structural_close _), parseGo_close]
         simp
     | .cons x s r, n, top, st, s0, acc, tail, h0, h => by
         simp only [XRest.plain, Bool.and_eq_true] at h
         simp only [XRest.fmt, XRest.parts, List.append_assoc]
-        rw [parseGo_plain n (top :: st) acc s0 [] _ h0]
+        rw [parseGo_plain n (top :: st) acc s0 [] _ h0 (structural_node x _)]
         rw [parseGo_node x n (top :: st) _ acc _ h.1.1]
         rw [parseGo_rest r n top st s _ tail h.1.2 h.2]
         simp [List.append_assoc]
@@ -181,7 +285,7 @@ theorem parseGo_top : ∀ (r : XRest) (s0 : Str) (acc : List (Nat × Str)), plai
     parseGo 0 [0] [] false acc (s0 ++ r.fmt) = .ok (acc ++ XRest.parts 0 s0 r)
   | .nil, s0, acc, h0, _ => by
       simp only [XRest.fmt, List.append_nil, XRest.parts]
-      have := parseGo_plain 0 [] acc s0 [] [] h0
+      have := parseGo_plain 0 [] acc s0 [] [] h0 structural_nil
       simp only [List.append_nil] at this
       rw [this, parseGo.eq_def]
       simp only [partOf]
@@ -189,7 +293,7 @@ theorem parseGo_top : ∀ (r : XRest) (s0 : Str) (acc : List (Nat × Str)), plai
   | .cons x s r, s0, acc, h0, h => by
       simp only [XRest.plain, Bool.and_eq_true] at h
       simp only [XRest.fmt, XRest.parts]
-      rw [parseGo_plain 0 [] acc s0 [] _ h0]
+      rw [parseGo_plain 0 [] acc s0 [] _ h0 (structural_node x _)]
       rw [parseGo_node x 0 [] _ acc _ h.1.1]
       rw [parseGo_top r s _ h.1.2 h.2]
       simp [List.append_assoc]
